@@ -139,6 +139,18 @@ CHECKS = {
              "(counted separately).",
         note="trusted: twin context as 'equivalent context'; the interactive save/load commands are driven by the C19 check",
         design="DESIGN.md section 4, C12"),
+    "C13": dict(
+        engine="E4 env",
+        technique="exhaustive enumeration of environment answers (read fragmentations with 0, 1, 2 deviations from the default delivery, fixed fragment sizes, long-line alignments) on the real scanner/parser, compared with the default delivery",
+        text="For each of 50 short texts that together contain every multi-character lexeme (numbers in every form, names, every 2-character operator, "
+             "word operators, string escapes, doubled quotes, block/line/# comments, CRLF, and rejected texts), the byte stream is delivered by a fragmenting "
+             "StreamReader with 0 splits (reference: one read per line), every single split position, every pair of split positions (every third triple in "
+             "thorough) and fixed fragment sizes 1..16, 1022, 1023, 1024, 2048; CRLF vs LF through the built-in reader; and 23 lexeme kinds are placed at "
+             "5 (quick) / all (thorough) alignments across byte 1023 (and 2046) of one long line, LF and CRLF, through StringReader and through the bloc "
+             "command's file and stdin readers, against the same tokens one per line. Oracle: token stream (code, text), parse verdict and message, unparsed "
+             "program and program output are equal to the reference delivery.",
+        note="trusted: the unsplit delivery as reference; // and # comments are line-anchored and are not joined onto long lines; a custom reader that passes CR through is compared with itself only",
+        design="DESIGN.md section 4, C13"),
 }
 
 NOT_YET = {}
@@ -182,6 +194,8 @@ def main():
         "engines": [
             {"name": "E1 space", "path": "vf/core.py", "serves_properties": sorted(k for k, v in CHECKS.items() if v["engine"].startswith("E1")),
              "kind_free_text": "parallel exhaustive enumeration of finite case spaces through harness/vdrv.cpp (fork-isolated, ASan+UBSan, step budget, CPU watchdog)"},
+            {"name": "E4 env", "path": "vf/props/c13.py, harness/vdrv.cpp (FragReader)", "serves_properties": ["C13"],
+             "kind_free_text": "all environment answers with <=k deviations from the default (split points of the read stream, fixed fragment sizes, long-line alignments)"},
             {"name": "E2 hist", "path": "vf/core.py (explore + collect), vf/props/c08.py, vf/props/c09.py", "serves_properties": sorted(k for k, v in CHECKS.items() if v["engine"].startswith("E2")),
              "kind_free_text": "explicit-state search over operation histories: each state is rebuilt by replaying its shortest history on a fresh context, canonical dump -> dedup, invariant + model comparison in every state"},
         ],
